@@ -30,6 +30,11 @@ func runC18(p *load.Program, r *oblig.Report) {
 	c18RawFramed(p, r)
 	c18Loops(p, r)
 	c18Mechanisms(p, r)
+	// a handshake or authenticate answer that carries an error code (mechanism rejected, bad proof) fails the exchange:
+	// the Conn operations report the code of the response their read callback decoded (C11.R9)
+	shareRules(r, "C18", "C18.R7 a rejected step is reported", func(sub *oblig.Report) {
+		newC11(p, sub).ruleR9("C11.R9 a response-level error code is reported to the caller")
+	})
 }
 
 // authGate finds, in fn, the block taken when the configured-SASL test is true, and the success successor of the
